@@ -1,0 +1,39 @@
+// Copyright 2026 The Go Authors. All rights reserved.
+// Use of this source code is governed by a BSD-style
+// license that can be found in the LICENSE file.
+
+package verifhook
+
+// Event identifiers. "Before" events are reported ahead of the step they
+// name (a harness may block there); "after" events report what was observed.
+const (
+	// internal/impl lazy-field publication protocol (lazyUnmarshal and the
+	// opaque getter helpers).
+	LazyEnter      = 1  // a: field number
+	LazyBeforeLoad = 2  // before the atomic nil check of the field pointer
+	LazyAfterLoad  = 3  // a: 1 if the pointer was nil
+	LazyBeforeFind = 4  // before the index lookup in the retained buffer
+	LazyAfterFind  = 5  // a: 1 if found, b: 1 if MultipleContiguous
+	LazyBeforeCAS  = 6  // before AtomicSetPointerIfNil
+	LazyAfterCAS   = 7  // a: 1 if this goroutine published its object
+	LazyBeforeGet  = 8  // before the final atomic load in the getter
+	LazyAfterGet   = 9  // id: address of the returned submessage
+	LazyPresent    = 10 // before the presence-bit load; a: index
+
+	// internal/protolazy index protocol.
+	IndexBeforeLoad  = 20
+	IndexAfterLoad   = 21 // a: 1 if the index was nil
+	IndexBeforeStore = 22
+	IndexAfterStore  = 23 // a: number of entries stored
+
+	// Double-checked initialisation (MessageInfo.init, filedesc lazy init).
+	InitFastPath    = 30 // a: flag value seen on the lock-free path
+	InitLocked      = 31 // a: flag value seen under the lock
+	InitBodyDone    = 32 // a: which structure; b: 1 if tables are non-nil
+	InitBeforeStore = 33 // before the done flag is stored
+	InitAfterStore  = 34
+
+	// Size cache (internal/impl/encode.go).
+	SizeCacheHit   = 40 // a: cached size
+	SizeCacheStore = 41 // a: stored size
+)
